@@ -12,7 +12,7 @@ cp $src/patch.diff $src/demo.py $out/ 2>/dev/null
 [ -f $src/meta.json ] && cp $src/meta.json $out/agent_meta.json
 wt=/tmp/wt_confirm_$name
 git -C $REPO worktree remove --force $wt >/dev/null 2>&1
-git -C $REPO worktree add -q $wt HEAD || exit 2
+git -C $REPO worktree add -q -f --detach $wt HEAD || exit 2
 tmpd=$(mktemp -d)
 ( cd $tmpd && PYTHONPATH=$wt timeout 600 /venv/bin/python $out/demo.py > $out/demo_unchanged.log 2>&1 ); demo0=$?
 git -C $wt apply $out/patch.diff; applied=$?
